@@ -25,6 +25,7 @@ def run(ctx):
            'the Unrecoverable arm stores true into unrecoverably_reorged before returning Err; Index::status reads that flag')
   ctx.rule('R14.4', 'handle_reorg restores the oldest persistent savepoint and commits on the same transaction (shared with R13.5)')
 
+  _r14_5(ctx)
   # ---------------- R14.1
   ib = ctx.body('R14.1', INDEX_BLOCK)
   if ib is not None:
@@ -202,3 +203,44 @@ def _err_aggs(b):
       if rv and rv['k'] == 'agg' and rv['ak'] == 'adt' and norm(rv['adt']) == ERR:
         out.append((rv['variant'], rv, s.get('l')))
   return out
+
+
+def _r14_5(ctx):
+  """savepoints are taken during catch-up: the per-block loop of update_index commits when Reorg::is_savepoint_required says so"""
+  from ..core import where
+  from ..panics import guard_strings
+  from .common import reaches_avoiding
+  F = ctx.facts
+  ctx.rule('R14.5', 'Updater::update_index asks Reorg::is_savepoint_required after every block (outside integration tests) and a true answer leads straight to a commit — so a multi-block catch-up takes the spaced savepoints '
+           'that Reorg::detect_reorg assumes exist; Updater::commit calls Reorg::update_savepoints')
+  b = ctx.body('R14.5', 'ord::index::updater::Updater::update_index')
+  if b is None:
+    return
+  ctx.analysed(b)
+  isr = b.calls_to('ord::index::reorg::Reorg::is_savepoint_required')
+  commits = b.calls_to('ord::index::updater::Updater::commit')
+  if not ctx.ob('R14.5', b.n, 'the per-block loop consults Reorg::is_savepoint_required', len(isr) == 1,
+                'update_index no longer asks whether a savepoint is due: a catch-up over many blocks takes a single savepoint at the tip, while detect_reorg still assumes max_savepoints spaced ones', where(b, b.line)):
+    return
+  c = isr[0]
+  gs = [g for g in guard_strings(b, c.bb) if not g.startswith('discr(Try::branch')]
+  only = [g for g in gs if not g.startswith('discr(Receiver::recv(') and g not in ('Settings::integration_test(self.index.settings)==False',) and not g.startswith('Eq(uncommitted,Settings::commit_interval(')]
+  ctx.ob('R14.5', b.n, 'is_savepoint_required is consulted for every received block (only integration_test and the commit-interval test precede it)', not only, f'extra conditions {only}', where(b, c.line))
+  # the bool result (through `?`) decides a switch whose true edge reaches a commit without going round the loop
+  ok = False
+  for bb in b.reachable_from(c.bb):
+    t = b.term(bb)
+    if t['k'] == 'switch' and t.get('dty') == 'bool' and c in b.slice_of([t['d']]).calls:
+      for lab, tgt in b.switch_edges(bb):
+        if lab != 0:
+          if any(reaches_avoiding(b, tgt, cm.bb, {c.bb}) for cm in commits):
+            ok = True
+  ctx.ob('R14.5', b.n, 'a true answer leads to Updater::commit in the same iteration', ok, 'catch-up over many blocks would take a single savepoint at the tip', where(b, c.line))
+  cm = ctx.body('R14.5', 'ord::index::updater::Updater::commit')
+  if cm is not None:
+    ctx.ob('R14.5', cm.n, 'commit calls Reorg::update_savepoints', len(cm.calls_to('ord::index::reorg::Reorg::update_savepoints')) == 1, '', where(cm, cm.line))
+  us = ctx.body('R14.5', 'ord::index::reorg::Reorg::update_savepoints')
+  if us is not None:
+    sp = us.calls_to('re:WriteTransaction::persistent_savepoint$')
+    ir = us.calls_to('ord::index::reorg::Reorg::is_savepoint_required')
+    ctx.ob('R14.5', us.n, 'a savepoint is created exactly when is_savepoint_required answers true', len(sp) == 1 and len(ir) == 1 and any(g.endswith('.v:Continue.0==True') and 'is_savepoint_required' in g for g in guard_strings(us, sp[0].bb)), '', where(us, us.line))
